@@ -14,22 +14,33 @@ SINGLE = ["MV A, {}", "ADD A, {}", "MV {}, A", "INC {}", "ROR {}", "CMP {}, A", 
 DIRECT = re.compile(r"\((?!BP\+|PX\+|PY\+)[^()\[\]]+\)")
 
 
-def family(text, text2, f):
-    """root cause from the shape of the text"""
+def defaulted(text, text2):
+    """is text2 the text with every internal-memory operand shown in the default (BP+n) mode - i.e. what the decoder
+    shows when the assembler emitted no prefix byte at all?"""
+    if not text2:
+        return False
+    pat = re.escape(text.replace("(PX+", "(BP+").replace("(PY+", "(BP+"))
+    pat = re.sub(r"\\\((?!BP\\\+)([A-Za-z0-9_]+)\\\)",
+                 lambda m: r"\(BP\+" + (m.group(1) if re.fullmatch(r"[0-9A-F]{2}", m.group(1)) else r"[0-9A-F]{2}") + r"\)", pat)
+    return re.fullmatch(pat, text2) is not None
+
+
+def family(text, text2, f, kind="OK"):
+    """root cause, from the shape of the text AND the shape of what came back (so that another way of getting the same
+    text wrong is a different signature)"""
     if "(BP+PX)" in text and "(BP+PY)" in text:
-        return "pair_(BP+PX),(BP+PY)_rejected"
+        return "pair_(BP+PX),(BP+PY)_rejected" if kind == "ASMERR" else None
     if "(BP+PX)" in text or "(BP+PY)" in text:
         return "register_indexed_operand_(BP+PX)/(BP+PY)_loses_the_operand_byte_the_decoder_consumes"
-    if "[(" in text:
-        return "pointer_cell_addressing_mode_of_[(..)]_not_encoded"
-    if DIRECT.search(text):
-        return "direct_(n)_operand_assembled_without_the_prefix_that_selects_direct_addressing"
     if f is not None and f.get("same_text") == "1" and f.get("same_il") != "1" and text.split("_")[0] in ("ADD", "SUB", "MV", "EX"):
         return "text_does_not_determine_the_register_pair_opcode"
-    if text2 is not None and text2 == text.replace("(PX+", "(BP+").replace("(PY+", "(BP+"):
+    if kind == "OK" and f is not None and f.get("same_text") != "1" and defaulted(text, text2):
+        # the assembler emitted no prefix byte: every internal operand comes back in the default mode
+        if "[(" in text:
+            return "pointer_cell_addressing_mode_of_[(..)]_not_encoded"
+        if DIRECT.search(text):
+            return "direct_(n)_operand_assembled_without_the_prefix_that_selects_direct_addressing"
         return "addressing_prefix_not_emitted_for_this_operand_class"
-    if "(PY+" in text:
-        return "second_slot_mode_on_a_lone_operand"
     return None
 
 
@@ -62,7 +73,7 @@ def run(ctx):
         ctx.count("mn:" + mn)
         fam = None
         if a.startswith("ASMERR") or a.startswith("REDIS-FAIL"):
-            fam = family(text, None, None) or "rendered_text_rejected_by_assembler"
+            fam = family(text, None, None, a.split(" ")[0]) or "rendered_text_rejected_by_assembler"
         else:
             f = dict(t.split("=") for t in a.split(" | ")[0].split()[1:])
             text2 = a.split("| text2=")[1] if "| text2=" in a else ""
@@ -99,7 +110,8 @@ def run(ctx):
         shown = r
         want = {"N": "(N:16)", "BP_N": "(BP_N:16)", "PX_N": "(PX_N:16)", "PY_N": "(PY_N:16)", "BP_PX": "(BP_PX)", "BP_PY": "(BP_PY)"}[m]
         if want not in shown:
-            ctx.report(["py", "assembler_emits_encoding_with_other_addressing_mode"], f"mode {m}: `{tpl.format(MODES[m])}` assembles to {hx}, which the decoder renders as {shown}", {"source": tpl.format(MODES[m]), "bytes": hx, "render": shown})
+            got = "+".join(sorted(set(re.findall(r"\((N|BP_N|PX_N|PY_N|BP_PX|BP_PY)[:)]", shown)))) or ("rejected" if not shown.startswith("OK") else "none")
+            ctx.report(["py", "assembler_emits_encoding_with_other_addressing_mode", m, got], f"mode {m}: `{tpl.format(MODES[m])}` assembles to {hx}, which the decoder renders as {shown}", {"source": tpl.format(MODES[m]), "bytes": hx, "render": shown})
         else:
             ctx.nontrivial.add(tpl + m)
     ctx.samples = [{"case": lines[0], "answer": out[0][:300]}]
